@@ -47,7 +47,7 @@ RULE = (
     "nesting bombs - one of 16 IR wrappers nested 10..10^5 times inside the fees / a reference / a datum slot of a real "
     "encoding, assembled as bytes - huge length prefixes) decoded on a 2 MiB thread in child processes; nesting boundary: for each of 10 expression slots "
     "of a transaction x 16 IR wrappers the deepest nesting the real decoder accepts is scanned (0..140) and the "
-    "encodings at depths 0, 1 and around it are given to both the real decoder and the model reader; a length sweep (byte strings, texts, addresses, hashes, lists and names of 0, 23, 24, 255, 256, 4095, 4096, 4097 and 5000 items in a datum and a redeemer); a name sweep (parameters, queries, input blocks, custom types, directive names and keys in capitals, mixed case, wide characters, with a space, empty). Non-trivial = every case; distinct = distinct IR value"
+    "encodings at depths 0, 1 and around it are given to both the real decoder and the model reader; a length sweep (byte strings, texts, addresses, hashes, lists and names of 0, 23, 24, 255, 256, 4095, 4096, 4097 and 5000 items in a datum and a redeemer); an amount sweep (resolved UTxOs holding quantities at the edges of the 64- and 128-bit ranges); a name sweep (parameters, queries, input blocks, custom types, directive names and keys in capitals, mixed case, wide characters, with a space, empty). Non-trivial = every case; distinct = distinct IR value"
 )
 ASSUMPTIONS = ["UTxO sets and asset maps with more than one element are compared up to element order (HashSet/HashMap iteration order)",
                "equality after the round trip is canonical equality of the harness's exhaustive TIR-to-JSON conversion"]
